@@ -67,6 +67,33 @@ theorem C26_construct_spec (h : Heap) (vs : List Val) :
     (construct h vs).1.arr h.length = vs ∧ ∀ b, b < h.length → (construct h vs).1.arr b = h.arr b := by
   refine ⟨rfl, by simp [construct], arr_append_new h vs, fun b hb => arr_append_old h vs b hb⟩
 
+theorem pushAll_spec (a : Nat) : ∀ (xs : List Val) (h : Heap), a < h.length →
+    ∃ h', pushAll (.ref a) xs h = .ok h' ∧ h'.arr a = h.arr a ++ xs ∧ Frame a h h' := by
+  intro xs
+  induction xs with
+  | nil => intro h _; exact ⟨h, rfl, by simp, rfl, fun _ _ => rfl⟩
+  | cons x xs ih =>
+    intro h ha
+    obtain ⟨h1, e1, arr1, len1, fr1⟩ := C26_push_spec h a x ha
+    obtain ⟨h2, e2, arr2, len2, fr2⟩ := ih h1 (by omega)
+    refine ⟨h2, by simp only [pushAll, e1, e2], by rw [arr2, arr1]; simp, by omega, fun b hb => by rw [fr2 b hb, fr1 b hb]⟩
+
+/-- An array literal of ANY length — also beyond the 65535 elements one `ConstructArray` can count, where the
+    compiler constructs the first 65535 and pushes the rest — is a fresh array holding exactly the listed
+    values in order; existing arrays are untouched. -/
+theorem C26_literal_spec (h : Heap) (vs : List Val) :
+    ∃ h', constructLit h vs = .ok (h', .ref h.length) ∧ h'.arr h.length = vs ∧ h'.length = h.length + 1 ∧
+      ∀ b, b < h.length → h'.arr b = h.arr b := by
+  obtain ⟨c1, c2, c3, c4⟩ := C26_construct_spec h (vs.take maxCount)
+  have hlt : h.length < (construct h (vs.take maxCount)).1.length := by omega
+  obtain ⟨h', e, harr, hlen, hfr⟩ := pushAll_spec h.length (vs.drop maxCount) _ hlt
+  refine ⟨h', ?_, ?_, by omega, ?_⟩
+  · simp only [constructLit]
+    rw [c1, e]
+  · rw [harr, c3, List.take_append_drop]
+  · intro b hb
+    rw [hfr b (by omega), c4 b hb]
+
 /-- Reference semantics: an update through one variable holding address `a` is what every other
     variable holding `a` then reads (here: push through `v`, read through `w`), and arrays at other
     addresses are not affected. -/
